@@ -29,12 +29,12 @@ func init() {
 			Old: "\tev := newStreamEvent(StatementDelete, timestamp, tc.table.Name())", New: "\tev := newStreamEvent(StatementUpdate, timestamp, tc.table.Name())",
 			Expect: "C01-R1 kind@IsDeleteRows"},
 		Variant{ID: "c01-r1-update-drops-before-image", Prop: "C01", File: "streamer.go",
-			Old: "\t\tidentifies, err := getIdentifiesFromRow(tc, rows, i)\n\t\tif err != nil {\n\t\t\treturn ev, err\n\t\t}\n\t\tev.RowIdentifies = append(ev.RowIdentifies, identifies)\n\n\t\tvalues, err := getValuesFromRow(tc, rows, i)",
-			New: "\t\tidentifies, err := getIdentifiesFromRow(tc, rows, i)\n\t\tif err != nil {\n\t\t\treturn ev, err\n\t\t}\n\t\tif i == 0 {\n\t\t\tev.RowIdentifies = append(ev.RowIdentifies, identifies)\n\t\t}\n\n\t\tvalues, err := getValuesFromRow(tc, rows, i)",
+			Old:    "\t\tidentifies, err := getIdentifiesFromRow(tc, rows, i)\n\t\tif err != nil {\n\t\t\treturn ev, err\n\t\t}\n\t\tev.RowIdentifies = append(ev.RowIdentifies, identifies)\n\n\t\tvalues, err := getValuesFromRow(tc, rows, i)",
+			New:    "\t\tidentifies, err := getIdentifiesFromRow(tc, rows, i)\n\t\tif err != nil {\n\t\t\treturn ev, err\n\t\t}\n\t\tif i == 0 {\n\t\t\tev.RowIdentifies = append(ev.RowIdentifies, identifies)\n\t\t}\n\n\t\tvalues, err := getValuesFromRow(tc, rows, i)",
 			Expect: "C01-R5 row-loop@appendUpdateEventFromRows"},
 		Variant{ID: "c01-r2-images-crossed", Prop: "C01", File: "streamer.go",
-			Old: "\t\tev.RowIdentifies = append(ev.RowIdentifies, identifies)\n\n\t\tvalues, err := getValuesFromRow(tc, rows, i)\n\t\tif err != nil {\n\t\t\treturn ev, err\n\t\t}\n\t\tev.RowValues = append(ev.RowValues, values)",
-			New: "\t\tev.RowValues = append(ev.RowValues, identifies)\n\n\t\tvalues, err := getValuesFromRow(tc, rows, i)\n\t\tif err != nil {\n\t\t\treturn ev, err\n\t\t}\n\t\tev.RowIdentifies = append(ev.RowIdentifies, values)",
+			Old:    "\t\tev.RowIdentifies = append(ev.RowIdentifies, identifies)\n\n\t\tvalues, err := getValuesFromRow(tc, rows, i)\n\t\tif err != nil {\n\t\t\treturn ev, err\n\t\t}\n\t\tev.RowValues = append(ev.RowValues, values)",
+			New:    "\t\tev.RowValues = append(ev.RowValues, identifies)\n\n\t\tvalues, err := getValuesFromRow(tc, rows, i)\n\t\tif err != nil {\n\t\t\treturn ev, err\n\t\t}\n\t\tev.RowIdentifies = append(ev.RowIdentifies, values)",
 			Expect: "C01-R2 image-list@appendUpdateEventFromRows"},
 		Variant{ID: "c01-r3-stale-timestamp", Prop: "C01", File: "streamer.go",
 			Old: "\ttablesMaps := make(map[uint64]*tableCache)\n", New: "\ttablesMaps := make(map[uint64]*tableCache)\n\tvar lastTS int64\n",
@@ -451,26 +451,26 @@ func c01Framing(a *A, r *Roles) {
 	}
 	t := newTB(nil)
 	t.names[buf] = "buf"
-	var mk *ssa.MakeSlice
-	var cp *ssa.Call
+	// the event value: the argument of the replication-package constructor called by the decoder
+	var evArg ssa.Value
+	var ctor *ssa.Call
 	instrs(f, func(in ssa.Instruction) {
-		switch x := in.(type) {
-		case *ssa.MakeSlice:
-			mk = x
-		case *ssa.Call:
-			if isBuiltin(x.Common(), "copy") {
-				cp = x
+		if c, ok := in.(*ssa.Call); ok {
+			if cal := c.Common().StaticCallee(); cal != nil && cal.Pkg == w.Repl && len(c.Common().Args) == 1 {
+				evArg, ctor = c.Common().Args[0], c
 			}
 		}
 	})
-	if mk == nil || cp == nil {
-		a.undecided(rule, "framing@"+f.Name(), w.pos(f.Pos()), "allocation + copy of the event payload not found")
+	if evArg == nil {
+		a.undecided(rule, "framing@"+f.Name(), w.pos(f.Pos()), "construction of the event from the packet not found")
 		return
 	}
-	ln := t.term(mk.Len).String()
-	src := t.sliceTerm(cp.Common().Args[1])
-	dst := cp.Common().Args[0]
-	a.check(ln == "len(buf)-1" && src == "buf[1:]" && dst == ssa.Value(mk), rule, "framing@"+f.Name(), w.posOf(cp), "event = packet[1:] (the status byte is dropped), len(packet)-1 bytes",
+	ln, src, okc := freshCopyOf(t, evArg, 0)
+	if !okc {
+		a.undecided(rule, "framing@"+f.Name(), w.posOf(ctor), "allocation + copy of the event payload not found")
+		return
+	}
+	a.check(ln == "len(buf)-1" && src == "buf[1:]", rule, "framing@"+f.Name(), w.posOf(ctor), "event = packet[1:] (the status byte is dropped), len(packet)-1 bytes",
 		fmt.Sprintf("the event buffer has %s bytes filled from %s; a binlog packet is one status byte followed by the event", ln, src))
 	// classification reads buf[0]
 	ok := false
@@ -483,4 +483,49 @@ func c01Framing(a *A, r *Roles) {
 	})
 	a.check(ok, rule, "status-byte@"+f.Name(), w.pos(f.Pos()), "packet kind read from packet[0]", "the packet kind is not read from the first byte")
 	_ = types.Typ
+}
+
+
+// freshCopyOf: v is a byte slice allocated with make and filled by exactly one copy (possibly inside an in-package helper
+// whose single return is such a slice); returns the canonical terms of its length and of the copied source.
+func freshCopyOf(t *tb, v ssa.Value, depth int) (string, string, bool) {
+	switch x := strip(v).(type) {
+	case *ssa.MakeSlice:
+		var cps []*ssa.Call
+		if refs := x.Referrers(); refs != nil {
+			for _, r := range *refs {
+				if c, ok := r.(*ssa.Call); ok && isBuiltin(c.Common(), "copy") && c.Common().Args[0] == ssa.Value(x) {
+					cps = append(cps, c)
+				}
+			}
+		}
+		if len(cps) != 1 {
+			return "", "", false
+		}
+		return t.term(x.Len).String(), t.sliceTerm(cps[0].Common().Args[1]), true
+	case *ssa.Call:
+		cal := x.Common().StaticCallee()
+		home := x.Parent()
+		if cal == nil || cal.Blocks == nil || x.Common().IsInvoke() || home == nil || cal.Pkg != enclosingPkg(home) || depth >= 2 {
+			return "", "", false
+		}
+		rets := returnsOf(cal)
+		if len(rets) != 1 || len(rets[0].Results) != 1 {
+			return "", "", false
+		}
+		child := newTB(nil)
+		child.depth, child.tables = t.depth+1, t.tables
+		for i, arg := range x.Common().Args {
+			if i >= len(cal.Params) {
+				break
+			}
+			if isIntegerType(arg.Type()) {
+				child.subst[cal.Params[i]] = t.term(arg)
+			} else {
+				child.ssub[cal.Params[i]] = t.sliceTerm(arg)
+			}
+		}
+		return freshCopyOf(child, rets[0].Results[0], depth+1)
+	}
+	return "", "", false
 }
